@@ -110,6 +110,8 @@ def step(state, op, sim_buffers):
         return state.copy(buffers=tuple((n, new[n]) for n in order)), None
     if kind == "set_default":
         return state.copy(default=arg), None
+    if kind == "noop":                   # an operation on another instrument
+        return state.copy(), None
     raise KeyError(op)
 
 
